@@ -126,6 +126,14 @@ def _flag_true(tr, edges, field):
     return False
 
 
+ROLE_NAMES = ("should_reconnect", "delay_for_attempt", "mark_connected", "mark_disconnected", "mark_reconnecting", "project")
+
+
+def reconnect_view(facts):
+    from ..inline import view_of
+    return view_of(facts, {b0.def_ for b0 in facts.crates[CRATE].bodies if b0.kind == "fn" and b0.name in ROLE_NAMES})
+
+
 def run(facts, tr, rep):
     _n_ops = check_no_panicking_time_arith(facts, tr, rep, "C16.NO-PANIC-ARITH", facts.crates[CRATE].bodies)
     rep.note("panicking Instant/Duration operators examined in the crate: %d" % _n_ops)
@@ -133,8 +141,7 @@ def run(facts, tr, rep):
     # about); every other private helper of the service and of its future is inlined (a `FailureVerdict::decide`
     # classification step, a shared `Phase::dispatch` that makes the wrapped call, event helpers)
     from ..inline import view_of
-    ROLE_NAMES = ("should_reconnect", "delay_for_attempt", "mark_connected", "mark_disconnected", "mark_reconnecting", "project")
-    facts, tr = view_of(facts, {b0.def_ for b0 in facts.crates[CRATE].bodies if b0.kind == "fn" and b0.name in ROLE_NAMES})
+    facts, tr = reconnect_view(facts)
     sbs = service_call_bodies(facts, crate=CRATE)
     if not sbs:
         rep.anchor_missing("Service::call of the reconnect service")
@@ -334,7 +341,13 @@ def run(facts, tr, rep):
            % [g.where(i, j) for (i, j) in others])
     # initialised to 0 where the future is built
     inits = []
-    for (ab, i, j, rv) in agg_sites(facts, "tower_resilience_reconnect::service::ReconnectFuture"):
+    # the struct that holds the counter: the future itself, or a private struct it groups its bookkeeping in
+    cnt_adts = {"tower_resilience_reconnect::service::ReconnectFuture"}
+    for (i_, j_, s_) in aw:
+        last_ = s_["lhs"]["p"][-1]
+        if isinstance(last_, dict) and last_.get("adt") and facts.adt(last_["adt"]) is not None:
+            cnt_adts.add(last_["adt"])
+    for (ab, i, j, rv) in [x for a_ in sorted(cnt_adts) for x in agg_sites(facts, a_)]:
         if CNT in rv["fields"]:
             v = peel(tr.operand(ab, rv["ops"][rv["fields"].index(CNT)], (i, j)))
             inits.append((ab, i, j, v))
